@@ -546,15 +546,24 @@ func (d *vfcDouble) handle(node int, st *vfcConnState, args []string) string {
 			return "-EXECABORT Transaction discarded because of previous errors.\r\n"
 		}
 		d.fireSchedLocked()
-		// re-check every queued command at EXEC time
+		// EXEC re-checks the transaction as ONE multi-key request (cluster.c
+		// getNodeByQuery walks every queued command's keys: same slot, and on a
+		// migrating/importing slot all keys present or all missing)
+		var all []string
+		dup := map[string]bool{}
 		for _, q := range st.queued {
-			out, errReply := d.decideLocked(node, q.keys, st.asking)
-			if out != "x" {
-				d.trace = append(d.trace, fmt.Sprintf("t:%d:%d:%d:%s", node, tid, b2i(st.txnAsk), out))
-				d.nodeLog[node] = append(d.nodeLog[node], fmt.Sprintf("T%d:%s", tid, out))
-				st.decided = true
-				return errReply
+			for _, k := range q.keys {
+				if !dup[k] {
+					dup[k] = true
+					all = append(all, k)
+				}
 			}
+		}
+		if out, errReply := d.decideLocked(node, all, st.asking); out != "x" {
+			d.trace = append(d.trace, fmt.Sprintf("t:%d:%d:%d:%s", node, tid, b2i(st.txnAsk), out))
+			d.nodeLog[node] = append(d.nodeLog[node], fmt.Sprintf("T%d:%s", tid, out))
+			st.decided = true
+			return errReply
 		}
 		d.trace = append(d.trace, fmt.Sprintf("t:%d:%d:%d:x", node, tid, b2i(st.txnAsk)))
 		d.nodeLog[node] = append(d.nodeLog[node], fmt.Sprintf("T%d:x", tid))
